@@ -56,7 +56,7 @@ def gen_strings(n, shape, alpha):
         pool = [rstr(alpha, 6) for _ in range(1 + rng.below(4))]
         return [rng.choice(pool) for _ in range(n)]
     if shape == "sharedprefix":                # long common prefix, then short random tails
-        p = bytes(alpha[rng.below(len(alpha))] for _ in range(rng.choice([3, 17, 64, 150, 400] if n < 300 else [3, 9, 17])))
+        p = bytes(alpha[rng.below(len(alpha))] for _ in range(rng.choice([3, 17, 64, 150, 400] if n < 64 else [3, 17, 64, 150] if n < 130 else [3, 17, 64] if n < 300 else [3, 9, 17])))
         return [p + rstr(alpha, 3) for _ in range(n)]
     if shape == "allequal":
         w = rstr(alpha, 5)
@@ -107,7 +107,7 @@ def gen_small():
         mem = rng.choice(tm) if tm and rng.chance(3, 4) else rng.choice(MEMS)
     depth = 0
     if rep == 4:
-        if shape in ("sharedprefix", "allequal", "dups"):   # periodic texts: suffixes with long common prefixes
+        if shape in ("sharedprefix", "allequal", "dups") and n <= 150:   # periodic texts: suffixes with long common prefixes (model cost ~ n^3)
             per = rstr(alpha, 3) or b"a"
             text = (per * (n // len(per) + 1))[:n]
         else:
@@ -148,7 +148,7 @@ def gen_big(n, kind, algo, rep, lcp, mem):
                     group(pre + bytes(gch[rng.below(len(gch))] for _ in range(L)), g)
         one = bytes([gch[rng.below(len(gch))]])              # a short group and longer groups behind the same first byte
         group(pre + one, 2); group(pre + one + b"ab", 31); group(pre + one + b"a", 33)
-        while len(strs) < n: strs.append(pre + bytes(b"abc"[rng.below(3)] for _ in range(4 + rng.below(6))))
+        while len(strs) < n: strs.append(pre + bytes(b"abc"[rng.below(3)] for _ in range(4 + rng.below(4))))
         for i in range(len(strs) - 1, 0, -1):                 # shuffle
             j = rng.below(i + 1); strs[i], strs[j] = strs[j], strs[i]
     else: raise ValueError(kind)
@@ -191,7 +191,7 @@ if not ck.replay:
     big = [(65535, "abc", 0, 0, 1, 0), (65536, "nested", 0, 0, 1, 0), (65537, "full", 0, 2, 1, SIZE_MAX),
            (65536, "abc", 5, 1, 1, 0),
            (65536, "abc", 0, 0, 1, 10 ** 5), (65537, "full", 0, 0, 0, 10 ** 6), (65536, "nested", 0, 2, 1, 4096),
-           (65536, "abc", 0, 0, 1, 2 * 10 ** 6), (65537, "dups", 3, 3, 0, 10 ** 7),
+           (65536, "abc", 0, 0, 1, 14 * 10 ** 5), (65537, "dups", 3, 3, 0, 10 ** 7),
            # every entry point with the RADIX size threshold, duplicate groups around the 32 threshold at 0..3 bytes behind the step
            (66000, "groups0", 5, 0, 1, 0),              # radixsort_CI3 directly, C strings in exactly sized heap blocks
            (66000, "groups2", 5, 2, 1, SIZE_MAX),       # radixsort_CI3, std::string, groups also at the second stack level
@@ -280,7 +280,10 @@ else:
     if not crashed:
         # driver over chunks, 4 jobs
         idxs = list(range(len(cases)))
-        weight = lambda i: 1 + meta[i][4] * (40 if meta[i][4] > MODEL_SMALL_N else 1)
+        def weight(i):
+            n, mem = meta[i][4], meta[i][3]
+            if n <= MODEL_SMALL_N: return 1 + n * (1 + len(cases[i]) // (16 * (n + 1)))      # ~ n * average string length / 8
+            return n * (40 if (mem == 0 or mem >= 1500000) and meta[i][0] not in (6, 7) else 4)
         chunks = [[], [], [], []]; load = [0, 0, 0, 0]
         for i in sorted(idxs, key=lambda i: -weight(i)):
             j = load.index(min(load)); chunks[j].append(i); load[j] += weight(i)
@@ -405,6 +408,8 @@ ck.finish({
     "agreement": agree,
     "api_surface": api_surface,
     "model_small_n": MODEL_SMALL_N,
+    "driver_cpu_s_by_shape": {s: round(sum(float(r.get("t", 0)) for i, r in enumerate(res) if r and meta[i][5] == s), 1) for s in sorted(set(m[5] for m in meta))},
+    "slowest_driver_cases": sorted(((float(r.get("t", 0)), "%s %s n=%d mem=%d %s model=%s" % (ALGON[meta[i][0]], REPNAMES[meta[i][1]], meta[i][4], meta[i][3], meta[i][5], r["model"])) for i, r in enumerate(res) if r), reverse=True)[:14],
     "phase_seconds": _T,
 }, assumptions=[
     "object identity: pointer value (unsigned char*, const unsigned char*, unique_ptr<std::string>), suffix index (StringSuffixSet); std::string objects are identified by contents",
